@@ -612,6 +612,11 @@ class SimRun:
         if dict(os.environ) != _ENV0:
             os.environ.clear()
             os.environ.update(_ENV0)
+        # the simulator's own interpreter runs with PYTHONDONTWRITEBYTECODE (nothing may be written into
+        # /repo); the server it simulates runs, like bin/pygopherd, with the default: modules it loads at
+        # request time (PYG documents) are byte-compiled next to their source, i.e. inside the served tree
+        self._saved_dwb = sys.dont_write_bytecode
+        sys.dont_write_bytecode = False
         import tempfile
         self._saved_tmpnames = tempfile._name_sequence
         tempfile._name_sequence = _DetNames(self.seed)
@@ -781,6 +786,8 @@ class SimRun:
                 subprocess.run = self._real_subprocess_run
             self.fs.uninstall()
             self.sim.uninstall()
+            if hasattr(self, "_saved_dwb"):
+                sys.dont_write_bytecode = self._saved_dwb
             if hasattr(self, "_saved_tmpnames"):
                 import tempfile
                 tempfile._name_sequence = self._saved_tmpnames
